@@ -240,22 +240,45 @@ def run(ctx):
                         if sws:
                             return sws[0]
                 return None
-            for mod, stop_edge, cont_edge in (("Beyond", "false_edge", None), ("NotBeyond", "true_edge", "false_edge")):
+            # truth table of each arm, by path-sensitive exploration of the arm (atoms: control.is_true(); any other
+            # boolean, i.e. `distance == 0`, is free): which SearchControl variant is assigned under which outcome
+            for mod in ("Beyond", "NotBeyond"):
                 reg = excl.get(mod, set())
-                s = is_true_switch(reg)
-                ok = s is not None
+                start = [x for v, x in t0["ts"] if names.get(v) == mod]
+                atoms = {}
+                for bi, t in cfg.calls(b):
+                    if bi in reg and cfg.callee(t) == SC + "::is_true":
+                        sws = cfg.bool_switches(b, cfg.derived_locals(b, [t["d"][0]]))
+                        if sws:
+                            atoms[bi] = "is_true"
+                ok = bool(atoms and start)
                 detail = "arm `%s` has no is_true() test (idiom not recognised)" % mod
                 if ok:
-                    stops, conts = aggs(reg, "Stop"), aggs(reg, "Continue")
-                    start = [x for v, x in t0["ts"] if names.get(v) == mod]
-                    ok = bool(stops and conts)
-                    ok = ok and cfg.find_path(b, start, stops, removed_edges=[s[stop_edge]], avoid=[i0]) is None
-                    if cont_edge:
-                        ok = ok and cfg.find_path(b, start, conts, removed_edges=[s[cont_edge]], avoid=[i0]) is None
-                    else:
-                        ok = ok and cfg.find_path(b, start, conts, removed_edges=[s["false_edge"]], avoid=[i0]) is not None
-                    detail = ("%s: Stop only when the condition is %s; Continue otherwise" % (mod, "false" if mod == "Beyond" else "true")
-                              if ok else "modifier `%s` no longer maps condition true/false to the documented Continue/Stop" % mod)
+                    try:
+                        paths = cfg.bool_explore(b, start, [i0], atoms)
+                    except ValueError as e:
+                        paths = None
+                        detail = "arm `%s` could not be explored (%s)" % (mod, e)
+                    table = {}
+                    if paths is not None:
+                        for asg, trail in paths:
+                            variants = [s_["r"].get("variant") for bi in trail for s_ in b.blocks[bi]["s"]
+                                        if "r" in s_ and s_["r"]["k"] == "agg" and s_["r"].get("adt") == SC]
+                            free = tuple(sorted(v for k, v in asg.items() if k != "is_true"))
+                            table.setdefault((asg.get("is_true"), free), set()).add(variants[-1] if variants else None)
+                        outcomes = {}
+                        for (it, free), vs in table.items():
+                            outcomes.setdefault(it, set()).update(vs)
+                        if mod == "Beyond":
+                            # is_true => Continue always; !is_true => Stop for some value of the free test (distance != 0)
+                            # and Continue for the other (distance == 0)
+                            ok = outcomes.get(True) == {"Continue"} and outcomes.get(False) == {"Continue", "Stop"}
+                        else:
+                            ok = outcomes.get(True) == {"Stop"} and outcomes.get(False) == {"Continue"}
+                        detail = ("%s: %s" % (mod, "Continue when the condition holds or at distance 0, Stop otherwise" if mod == "Beyond"
+                                              else "Stop when the condition holds, Continue otherwise") if ok else
+                                  "modifier `%s` no longer maps condition true/false to the documented Continue/Stop "
+                                  "(outcomes by is_true: %s)" % (mod, {k: sorted(map(str, v)) for k, v in outcomes.items()}))
                 ctx.ob("R15c", "modifier[%s]" % mod, ok, detail, b.where)
             reg = excl.get("Not", set())
             ok = any(bi in reg and cfg.callee(t) == SC + "::flip" for bi, t in cfg.calls(b))
